@@ -279,6 +279,35 @@ theorem fromLeHex_spec {n : Nat} {hex : List Nat} (hc : Bytes hex) :
         exact ⟨toLimbs_WF _ _, toLimbs_length _ _⟩
   · simp [hl]
 
+/-- the decoded big-endian hex value never wraps -/
+theorem fromBeHex_val {n : Nat} {hex : List Nat} (hc : Bytes hex) :
+    (fromBeHex n hex).map val = specFromBeHex n hex := by
+  rw [fromBeHex_spec hc]
+  unfold specFromBeHex
+  by_cases hl : hex.length = 16 * n
+  · rw [if_pos hl]
+    cases hd : hexDigits? hex with
+    | none => rfl
+    | some ds =>
+      simp only [Option.map_some]
+      congr 1
+      rw [val_toLimbs]
+      apply Nat.mod_eq_of_lt
+      rw [beValBase_eq]
+      have hlt := digitsVal_lt (b := 16) (ds := ds.reverse)
+        (fun d hd' => hexDigits?_lt hd d (List.mem_reverse.mp hd'))
+      rw [List.length_reverse, hexDigits?_length hd, hl, Nat.pow_mul, B_eq_16] at hlt
+      exact hlt
+  · rw [if_neg hl]; rfl
+
+/-- parity of a limb list is the parity of its lowest limb (`is_odd`) -/
+theorem headD_mod_two (l : List Nat) : l.headD 0 % 2 = val l % 2 := by
+  cases l with
+  | nil => rfl
+  | cons x xs =>
+    simp only [List.headD_cons, val_cons, B_def]
+    omega
+
 /-! ### formatting -/
 
 theorem hexVal?_hexChar : ∀ (u : Bool) (d : Fin 16), hexVal? (hexChar u d.val) = some d.val := by
